@@ -197,7 +197,135 @@ impl Prop for C03 {
     fn supervisor_phase(&self, sup: &mut Sup) {
         crate::xcheck::binary_crosscheck(sup, true);
     }
+    fn fuzz_decoders(&self) -> Vec<&'static str> {
+        vec!["C03", "C03R"]
+    }
+    fn fuzz_default_secs(&self) -> u64 {
+        420
+    }
 }
 
 #[allow(dead_code)]
 fn unused(_: Failure) {}
+
+// ---------------------------------------------------------------------------------------------
+// C03R — raw decoder for the coverage-guided tier: the first RAW_HEADER tape values choose the
+// option set (same edge family as C03), everything after them is delta's standard input, byte
+// for byte.  libFuzzer's byte-level mutations then act on the input text itself, which the
+// grammar-based generator above cannot reach (hostile bytes between valid constructs).
+
+pub struct C03R;
+pub const RAW_HEADER: usize = 96;
+
+impl C03R {
+    fn decode(t: &mut Tape) -> (crate::gen::config::Cfg, bool, Vec<u8>) {
+        let mut head = t.fork(RAW_HEADER);
+        let (cfg, edge) = gen_edge_cfg(&mut head);
+        let mut input = t.rest_bytes();
+        // `Tape::from_bytes` pads the last word with zeros: drop trailing NULs
+        while input.last() == Some(&0) {
+            input.pop();
+        }
+        (cfg, edge, input)
+    }
+}
+
+impl Prop for C03R {
+    fn id(&self) -> &'static str {
+        "C03R"
+    }
+    fn identities(&self) -> Vec<Vec<String>> {
+        identities()
+    }
+    fn cases(&self, _tier: Tier) -> usize {
+        0
+    }
+    fn tape_len(&self, _t: Tier) -> usize {
+        RAW_HEADER + 2048
+    }
+    fn rule(&self) -> String {
+        "raw decoder of C03 (coverage-guided tier only)".to_string()
+    }
+    fn assumptions(&self) -> Vec<String> {
+        Vec::new()
+    }
+    fn check(&self, t: &mut Tape, ctx: &mut Ctx) -> Verdict {
+        let (cfg, edge, input) = C03R::decode(t);
+        let identity = ctx.identity.clone();
+        ctx.class("raw-bytes");
+        ctx.class_if(edge, "edge-option");
+        ctx.class_if(cfg.has("side-by-side"), "side-by-side");
+        ctx.class_if(std::str::from_utf8(&input).is_err(), "invalid-utf8");
+        let engages = {
+            let s = String::from_utf8_lossy(&input);
+            s.lines().any(|l| MARKERS.iter().any(|m| l.starts_with(m)))
+        };
+        match exec::run_cfg(&cfg, ctx, &input) {
+            Ok(out) => {
+                if engages {
+                    let mut h = fnv(&input);
+                    h = fnv_add(h, &cfg.fingerprint().to_le_bytes());
+                    ctx.nontrivial(h);
+                    if ctx.want_sample() {
+                        ctx.sample(json!({"kind": "raw-bytes (libFuzzer)", "identity": identity, "argv": cfg.base_args(),
+                            "input": exec::printable(&input[..input.len().min(1200)]), "output_bytes": out.len()}));
+                    }
+                }
+                Verdict::Pass
+            }
+            Err(mut f) => {
+                f.detail = json!({"kind": "raw-bytes", "identity": identity, "case": exec::case_json(&cfg, &input)});
+                f.traits = failure_traits(&cfg, &input);
+                Verdict::Fail(f)
+            }
+        }
+    }
+    fn describe(&self, t: &mut Tape, ctx: &mut Ctx) -> serde_json::Value {
+        let (cfg, _edge, input) = C03R::decode(t);
+        json!({"kind": "raw-bytes", "identity": ctx.identity, "case": exec::case_json(&cfg, &input), "traits": failure_traits(&cfg, &input)})
+    }
+    fn fuzz_seeds(&self, seed: u64) -> Vec<Vec<u8>> {
+        // golden inputs: delta's own example files and generated grep / rg --json / blame streams,
+        // each under a few option sets
+        let mut out = Vec::new();
+        let mut bodies: Vec<Vec<u8>> = Vec::new();
+        let ex = std::path::Path::new(env!("DUT_SRC")).join("../etc/examples");
+        if let Ok(rd) = std::fs::read_dir(&ex) {
+            let mut files: Vec<_> = rd.flatten().map(|e| e.path()).collect();
+            files.sort();
+            for p in files {
+                if let Ok(b) = std::fs::read(&p) {
+                    if b.len() <= 6000 {
+                        bodies.push(b);
+                    } else {
+                        bodies.push(b[..6000].to_vec());
+                    }
+                }
+            }
+        }
+        for k in 0..6u32 {
+            let mk = |f: fn(&mut Tape) -> Vec<u8>| {
+                let mut t = Tape::new((0..400u32).map(|i| (fnv(&[k as u8, (i & 255) as u8, (i >> 8) as u8, 7]) >> 16) as u32).collect());
+                f(&mut t)
+            };
+            bodies.push(mk(other::grep_stream));
+            bodies.push(mk(other::rg_json_stream));
+            bodies.push(mk(other::blame_stream));
+        }
+        for (i, b) in bodies.iter().enumerate() {
+            for k in 0..3u64 {
+                let mut v: Vec<u8> = Vec::with_capacity(RAW_HEADER * 4 + b.len());
+                for j in 0..RAW_HEADER as u64 {
+                    let h = if k == 0 { 0 } else { (fnv(&[(seed & 255) as u8, i as u8, k as u8, j as u8, 3]) >> 20) as u32 };
+                    v.extend_from_slice(&h.to_le_bytes());
+                }
+                v.extend_from_slice(b);
+                out.push(v);
+            }
+        }
+        out
+    }
+    fn fuzz_decoders(&self) -> Vec<&'static str> {
+        Vec::new()
+    }
+}
